@@ -164,7 +164,8 @@ struct WorldA {
         tel = new Telnetd::Impl(loop, term);
         rpc = new TcpRpc::Impl(loop, term);
     }
-    void pass() { loop->runNext([] {}, "verif-pass"); loop->runLoop(event::Loop::Mode::kOnce); }
+    int front_end_pending = 0;         // endSession tasks of Telnetd/TcpRpc queued by command handlers
+    void pass() { loop->runNext([] {}, "verif-pass"); loop->runLoop(event::Loop::Mode::kOnce); front_end_pending = 0; }
     void drain_stdout() {
         if (out_r < 0) return;
         char buf[4096];
@@ -186,6 +187,8 @@ struct WorldA {
 };
 
 static WorldA *g_A = nullptr;
+static int g_depth = 0, g_max_depth = 2;       // nesting of command handlers that act on their own session
+struct Act { char kind; std::string data; };   // 's' send text, 'f' feed bytes to the own session, 'e' end the session
 // keep fd 0 and fd 1 occupied (by /dev/null) whenever the stdio service does not own them, so that pipe()
 // never hands them out
 static void park_std_fds() {
@@ -336,6 +339,17 @@ static int dump_scanner() {
 static bool idx(const std::string &s, size_t lim, size_t &out) {
     uint64_t v; if (!vh::to_u64(s, v) || v >= lim) return false; out = v; return true;
 }
+// mkfunc [s:<hex> | f:<hex> | e]...
+static bool parse_script(const std::vector<std::string> &w, std::vector<Act> &out) {
+    for (size_t k = 1; k < w.size(); ++k) {
+        const std::string &t = w[k];
+        std::vector<uint8_t> d;
+        if (t == "e") { out.push_back(Act{'e', ""}); continue; }
+        if (t.size() < 3 || t[1] != ':' || (t[0] != 's' && t[0] != 'f') || !vh::unhex(t.substr(2), d)) return false;
+        out.push_back(Act{t[0], std::string(d.begin(), d.end())});
+    }
+    return true;
+}
 static std::string ret(bool r) { return std::string("P ret=") + (r ? "1" : "0"); }
 
 int main(int argc, char **argv) {
@@ -354,6 +368,7 @@ int main(int argc, char **argv) {
         if (w.empty()) continue;
         if (w[0] == "case") {
             A.reset(); B.reset();
+            g_depth = 0; g_max_depth = 2;
             A.reset(new WorldA());
             outln(line);
             continue;
@@ -362,6 +377,7 @@ int main(int argc, char **argv) {
         const std::string &op = w[0];
         bool ok = true;
         std::vector<uint8_t> d; uint64_t n = 0, m = 0; size_t i = 0, j = 0;
+        std::vector<Act> script;
         int c = A->cur;
         g_A = A.get();
         g_op_slot = c;
@@ -379,7 +395,7 @@ int main(int argc, char **argv) {
         } else if (op == "pass" && w.size() == 1) {
             A->pass(); A->drain_stdout();
             ev("P pass");
-        } else if (op == "teardown" && w.size() == 1) {
+        } else if (op == "teardown" && w.size() == 1 && A->front_end_pending == 0) {
             A->destroy(false);
             A.reset(new WorldA());
             g_A = A.get();
@@ -433,14 +449,30 @@ int main(int argc, char **argv) {
             size_t id = A->nodes.size();
             A->nodes.push_back(A->term->createDirNode("help-" + std::to_string(id)));
             ev("P node=" + std::to_string(id));
-        } else if (op == "mkfunc" && w.size() == 1 && A->nodes.size() < 16) {
+        } else if (op == "depth" && w.size() == 2 && vh::to_u64(w[1], n) && n <= 3) {
+            g_max_depth = (int)n; ev("P depth");
+        } else if (op == "mkfunc" && w.size() <= 7 && A->nodes.size() < 16 && parse_script(w, script)) {
             size_t id = A->nodes.size();
             A->nodes.push_back(A->term->createFuncNode(
-                [id](const Session &s, const Args &a) {
+                [id, script](const Session &s, const Args &a) {
                     std::string l = "P probe " + std::to_string(id) + " " + std::to_string(a.size());
                     for (auto &x : a) l += " " + vh::hex(x);
                     if (g_op_slot == 7 && g_A) g_A->drain_stdout();   // what stdio wrote so far comes first
                     ev(g_op_slot, l);
+                    // the handler acts on its own session, synchronously, while the command is executing
+                    if (g_depth < g_max_depth && g_A) {
+                        ++g_depth;
+                        for (auto &act : script) {
+                            if (act.kind == 's') s.send(act.data);
+                            else if (act.kind == 'f') g_A->term->onRecvString(s.st_, act.data);
+                            else {
+                                if (g_op_slot == 7) g_A->drain_stdout();
+                                s.endSession();
+                                if (g_op_slot >= 4 && g_op_slot < 7) ++g_A->front_end_pending;
+                            }
+                        }
+                        --g_depth;
+                    }
                     s.send("<" + std::to_string(id) + ">\r\n");
                 }, "help-" + std::to_string(id)));
             ev("P node=" + std::to_string(id));
